@@ -164,7 +164,12 @@ def seeded_variants(pid):
 
 def run(pid, repo, verbose=True, jobs=16):
     from . import variants
-    vs = [v for v in variants.VARIANTS if pid in v['props']]
+    # breaking variants: those aimed at this property; benign variants:
+    # all of them (a behaviour-preserving edit must leave every check
+    # silent, wherever it is)
+    cy = props.PROPS[pid].get('cython', False)
+    vs = [v for v in variants.VARIANTS
+          if pid in v['props'] or (v['kind'] == 'benign' and not cy)]
     vs = vs + seeded_variants(pid)
     if not vs:
         print(f'selftest {pid}: no variants')
